@@ -118,19 +118,31 @@ def roots(tier):
 
 
 def instances(root):
-    """Yield the instances (pure data) of one root."""
+    """Yield the instances (pure data) of one root: the dyadic lattice (all products and sums of the data are exact,
+    so ties and cancellations are hit exactly), then a thinner non-dyadic copy of it (radius x 0.7, gradient x 0.3,
+    Hessian x 0.33: the same cancellations now leave rounding noise)."""
+    yield from _instances(root, False)
+    yield from _instances(root, True)
+
+
+def _instances(root, odd):
     fn, n, bp, tier = root["fn"], root["n"], root["bp"], root.get("tier", "quick")
-    thin = n >= 3
+    thin = n >= 3 or (odd and n >= 2)
     very_thin = n >= 4
     # the geometry solvers also get a mid-range component: with a non-zero constant term the outcome depends on the
     # ratio gradient*length/constant, which the powers of two alone jump over
     gl = grads(n, thin, extra=(6.0, -6.0) if fn in ("spider", "cauchy") and n <= 2 else ())
     if very_thin:
         gl = gl[:: max(1, len(gl) // 24)]
-    for (d, gs) in scalings(thin):
+    for (d, gs) in scalings(thin or odd):
+        if odd:
+            d = 0.7 * d
         xl = [bpat(p, d)[0] for p in bp]
         xu = [bpat(p, d)[1] for p in bp]
         base = {"fn": fn, "n": n, "xl": xl, "xu": xu, "delta": d, "gscale": gs}
+        if odd:
+            base["gmul"] = 0.3
+            base["hmul"] = 0.33
         if fn == "tangential":
             for g in gl:
                 for hk in HKINDS:
@@ -149,6 +161,25 @@ def instances(root):
                             for tcg in ((True, False) if hk == "I" or n == 1 else (True,)):
                                 yield dict(base, g=[x * gs for x in g], hk=hk, tcg=tcg, aub=A, bub=b, aeq=E,
                                            iname=iname, ename=ename)
+                            # the solver's own (debug) postconditions, at the natural scale of the constraint rows
+                            # and with rows of large magnitude (2^40: the twelve decades of the statement)
+                            if hk == "I" and (A or E):
+                                for cs in (1.0, 2.0 ** 40):
+                                    yield dict(base, g=[x * gs for x in g], hk=hk, tcg=True,
+                                               aub=[[x * cs for x in row] for row in A], bub=[x * cs for x in b],
+                                               aeq=[[x * cs for x in row] for row in E], iname=iname, ename=ename,
+                                               cscale=cs, debug=True)
+            # gradients almost normal to the null space of the equalities (large multiple of the equality row plus
+            # a small tangential part): the projected gradient is then known to few digits only
+            if n >= 2:
+                r = eq_sets(n)["one"][0]
+                for big in (2.0 ** 20, 2.0 ** 30):
+                    for g0 in itertools.product([0.0, 1.0, -1.0], repeat=n):
+                        for hk in ("zero", "I", "-I"):
+                            for iname in ("none", "one_small"):
+                                A, b = ineq_sets(n, d)[iname]
+                                yield dict(base, g=[(x + big * y) * gs for x, y in zip(g0, r)], hk=hk, tcg=True,
+                                           aub=A, bub=b, aeq=[r], iname=iname, ename="one", near_normal=big)
         elif fn == "normal":
             a = [1.0] * n
             na = [-1.0] * n
@@ -193,11 +224,12 @@ def solve(inst):
     ctx = {"xl": np.minimum(xl, 0.0), "xu": np.maximum(xu, 0.0), "delta": delta}
     H = None
     if "hk" in inst:
-        H = hessian(inst["hk"], n) * inst["gscale"] / 1.0
+        H = hessian(inst["hk"], n) * inst["gscale"] * inst.get("hmul", 1.0)
         ctx["H"] = H
-    g = np.array(inst.get("g", [0.0] * n), float)
+    g = np.array(inst.get("g", [0.0] * n), float) * inst.get("gmul", 1.0)
     ctx["g"] = g
     kw = {}
+    dbg = bool(inst.get("debug", False))
     if "tcg" in inst:
         kw["improve_tcg"] = bool(inst["tcg"])
     try:
@@ -210,7 +242,7 @@ def solve(inst):
                 aeq = np.array(inst["aeq"], float).reshape(-1, n)
                 ctx.update(aub=aub, bub=bub, aeq=aeq)
                 s = constrained_tangential_byrd_omojokun(g.copy(), lambda v: H @ v, xl.copy(), xu.copy(),
-                                                         aub.copy(), bub.copy(), aeq.copy(), delta, False, **kw)
+                                                         aub.copy(), bub.copy(), aeq.copy(), delta, dbg, **kw)
             elif fn == "normal":
                 aub = np.array(inst["aub"], float).reshape(-1, n)
                 bub = np.array(inst["bub"], float)
